@@ -55,6 +55,54 @@ def multigen_job(rng, jid):
             "rec": ["site"], "budget": 600000}
 
 
+def tree_resize_job(rng, jid):
+    """A resize meets a crowded bin whose head changes under it: the resizer waits for the bin lock while a
+    remover turns the tree bin back into a list (or removes the head of a list bin, or adds to the tree);
+    after the wait the resizer must re-validate the head and still migrate the bin. Scripted so that the
+    resizer blocks on exactly that lock, plus random schedules."""
+    u = gen.Uids()
+    mixed = rng.random() < 0.5
+    h = {k: 7 + (64 * (k % 2) if mixed else 0) for k in range(1, 13)}
+    fillers = list(range(100, 160))
+    for f in fillers:
+        b = (f * 2 + 1) % 64
+        h[f] = b if b != 7 else 9
+    shape = rng.choice(["shrink", "shrink", "tree", "list"])
+    if shape == "shrink":
+        pre = [gen.ins(k, u) for k in range(1, 10)] + [{"op": "remove", "k": k} for k in (9, 8, 7, 6)]
+        left = 5
+    elif shape == "tree":
+        pre = [gen.ins(k, u) for k in range(1, 11)]
+        left = 10
+    else:
+        pre = [gen.ins(k, u) for k in range(1, 5)]
+        left = 4
+    nf = 47 - left                       # one more insertion reaches the threshold of the 64-bin table
+    pre += [gen.ins(f, u) for f in fillers[:nf]]
+    # several removals in a row: one of them is the one that makes the tree bin "too small" (or removes a list head)
+    victims = rng.sample(range(1, min(left, 5) + 1), min(3, min(left, 5)))
+    t0 = [{"op": rng.choice(["remove", "remove_entry", "compute"]), "k": v, "f": "none", "n": u.next()} for v in victims]
+    if rng.random() < 0.4:
+        t0.append(gen.ins(11, u))
+    t1 = [gen.ins(fillers[nf], u)] + ([gen.ins(fillers[nf + 1], u)] if rng.random() < 0.5 else [])
+    t2 = [rng.choice([{"op": "get", "k": rng.randint(1, 5)}, gen.ins(12, u), {"op": "remove", "k": rng.randint(1, 5)}])]
+    threads = [t0, t1, t2]
+    job = {"id": jid, "cfg": "treeresize-" + shape, "kind": rng.choice(["map", "map", "set"]), "pin": rng.random() < 0.3,
+           "scope": rng.choice(["op", "thread"]), "hasher": gen.table_hasher(h), "cap": 42, "batch": rng.choice([0, 1]),
+           "prefix": pre, "threads": threads, "sched": gen.schedule(rng, 3, 1500), "finals": list(range(1, 13)) + fillers[:nf + 2],
+           "rec": ["site"], "budget": 600000}
+    if job["kind"] == "set":
+        job["prefix"] = [p for p in pre if p["op"] in ("insert", "remove")]
+        for t in threads:
+            for o in t:
+                if o["op"] in ("compute", "remove_entry"):
+                    o["op"] = "remove"
+    if rng.random() < 0.6:
+        # the remover is stopped right after it got the bin lock; the resizer runs until it blocks on that lock
+        job["script"] = [{"run": 0, "until": {"kind": "lock", "nth": rng.randint(1, len(victims))}}, {"finish": 1}, {"finish": 0}, {"finish": 1}, {"finish": 2}]
+    return job
+
+
 def stamp_check(verdict):
     """The model encodes size_ctl during a resize of n bins as RS(n) + k with RS injective in n and
     negative, k < MAXRES never carrying into the stamp. Here those facts are checked on the values of
@@ -94,7 +142,9 @@ def run(pid, tier, seed, njobs=None):
     n = njobs or (500 if tier == "quick" else 6000)
     names = ["thr16", "thr64", "two_bins", "list8"]
     for i in range(n):
-        if i % 4 == 3:
+        if i % 8 == 5:
+            jobs.append(tree_resize_job(rng, "c10-%05d" % i))
+        elif i % 4 == 3:
             j = gen.conc_job(rng, "c10-%05d" % i, cfgname=names[i % len(names)], rec=("site",), whole=0.2, maxops=4)
             if j["sched"].get("kind") == "os":
                 j["sched"] = gen.schedule(rng, len(j["threads"]))
@@ -136,6 +186,13 @@ def run(pid, tier, seed, njobs=None):
            "outcomes": outcomes, "helper_joins": joins, "resize_generations_validated": sum(gens), "rejected": len(v["rejected"]),
            "consts": stamp_check(verdict),
            "tlc_trace_validation": {"states": v["states"], "distinct": v["distinct"], "wall_s": round(v["wall"], 1)}}
+    # step-level conformance with Flurry.tla: the specification's own actions replayed along recorded executions
+    import stepconf
+    sc = stepconf.leg(pid, tier, seed, verdict, n=(120 if tier == "quick" else 1200))
+    cov["step_conformance"] = sc
+    cov["states"] = cov.get("states", 0) + sc["tlc_states"]
+    cov["transitions"] = cov.get("transitions", 0) + sc["tlc_states"]
+    cov["traces_validated_against_impl"] = cov.get("traces_validated_against_impl", 0) + sc["accepted"]
     lib.add_spec_coverage(cov, pid, tier)
     rc = verdict.finish()
     lib.write_evidence(pid, tier, seed, "model_checking", cov, time.time() - t0, len(verdict.violations),
